@@ -432,7 +432,29 @@ class RepoInterp:
                 return m
         return self.repo.resolve_callee(self.cur_fi, call)
 
+    MEMO_DECORATORS = ("lru_cache", "functools.lru_cache", "cache", "functools.cache")
+
     def inline_call(self, callee: FunctionInfo, call: ast.Call, fval: Optional[V], args: List[V], kwargs: Dict[str, V], st: State) -> V:
+        """functools.lru_cache / functools.cache on the callee are honoured: one table per function and process, keyed by
+        the arguments, filled only by calls that returned (as in CPython) - so histories see a remembered answer."""
+        decos = [d.split("(")[0] for d in callee.decorators()]
+        if self.heap and any(d in self.MEMO_DECORATORS for d in decos):
+            tkey = f"__global__:__lru__:{callee.fq}"
+            if tkey not in st.env:
+                st.env[tkey] = st.alloc("dict", {})
+            table = st.dict_of(st.env[tkey])
+            k = K((K(tuple(st.freeze(a) for a in args)), K(tuple(sorted((n, repr(st.freeze(v))) for n, v in kwargs.items())))))
+            if k in table:
+                st.effects.append(("lru-hit", callee.fq))
+                return table[k]
+            before = st.pending
+            v = self._inline_call(callee, call, fval, args, kwargs, st)
+            if st.pending is None and before is None and not isinstance(v, U):
+                table[k] = v
+            return v
+        return self._inline_call(callee, call, fval, args, kwargs, st)
+
+    def _inline_call(self, callee: FunctionInfo, call: ast.Call, fval: Optional[V], args: List[V], kwargs: Dict[str, V], st: State) -> V:
         if self.depth >= self.max_depth:
             return U("inline depth")
         a = callee.node.args  # type: ignore[attr-defined]
